@@ -11,9 +11,9 @@ package main
 
 import (
 	"fmt"
-	"os"
 	"go/token"
 	"go/types"
+	"os"
 	"sort"
 	"strings"
 
@@ -1064,6 +1064,17 @@ func (b *boundsAn) sinks(kinds map[string]bool) []boundsSink {
 						}
 					}
 				}
+				if kinds["lenconst"] && b.tlen[x.X] {
+					for _, o := range []ssa.Value{x.High, x.Low} {
+						if o == nil {
+							continue
+						}
+						if c, ok := constInt(o); ok && c > 0 {
+							out = append(out, boundsSink{fn, ins, "lenconst", o, gUpper})
+							break
+						}
+					}
+				}
 				if kinds["step"] && x.Low != nil && b.tv[x.Low] && x.High == nil && sliceShrinksLoop(x) {
 					out = append(out, boundsSink{fn, ins, "step", x.Low, gNonZero})
 				}
@@ -1491,6 +1502,169 @@ func clampToRemaining(bin *ssa.BinOp, e0, e1 ssa.Value) bool {
 	return false
 }
 
+// lenAtLeast: a constant L with len(sl) >= L established at block `at` (0: nothing known). Sources: a dominating
+// comparison of len(sl) with a constant on the edge where the length is not smaller; make with a length of proven
+// minimum; arrays; constant sub-slices; parameters (every in-scope call site); phis (minimum of the edges).
+func (b *boundsAn) lenAtLeast(sl ssa.Value, at *ssa.BasicBlock, depth int) int64 {
+	if depth > 8 || sl == nil || at == nil {
+		return 0
+	}
+	best := int64(0)
+	up := func(k int64) {
+		if k > best {
+			best = k
+		}
+	}
+	// dominating tests of len(sl)
+	fn := at.Parent()
+	same := func(v ssa.Value) bool { return v == sl || sameBase(v, sl) }
+	for _, blk := range fn.Blocks {
+		iff, ok := lastInstr(blk).(*ssa.If)
+		if !ok {
+			continue
+		}
+		bin, ok := iff.Cond.(*ssa.BinOp)
+		if !ok {
+			continue
+		}
+		for _, mOnX := range []bool{true, false} {
+			m, other := bin.X, bin.Y
+			if !mOnX {
+				m, other = bin.Y, bin.X
+			}
+			lc, ok := stripConv(m).(*ssa.Call)
+			if !ok {
+				continue
+			}
+			bi, ok := lc.Call.Value.(*ssa.Builtin)
+			if !ok || bi.Name() != "len" || !same(lc.Call.Args[0]) {
+				continue
+			}
+			k, isC := constInt(other)
+			if !isC {
+				// len(sl) compared with a non-constant of proven minimum: len >= other >= k
+				k = b.minConst(other, blk, depth+1)
+				if k <= 0 {
+					continue
+				}
+			}
+			op := bin.Op
+			if !mOnX {
+				switch op {
+				case token.LSS:
+					op = token.GTR
+				case token.LEQ:
+					op = token.GEQ
+				case token.GTR:
+					op = token.LSS
+				case token.GEQ:
+					op = token.LEQ
+				}
+			}
+			idx, low := -1, int64(0)
+			switch op {
+			case token.LSS:
+				idx, low = 1, k
+			case token.LEQ:
+				idx, low = 1, k+1
+			case token.GEQ:
+				idx, low = 0, k
+			case token.GTR:
+				idx, low = 0, k+1
+			case token.EQL:
+				if isC {
+					idx, low = 0, k
+				}
+			case token.NEQ:
+				if isC {
+					idx, low = 1, k
+				}
+			}
+			if idx >= 0 && edgeDominates(blk, idx, at) {
+				up(low)
+			}
+		}
+	}
+	switch x := sl.(type) {
+	case *ssa.MakeSlice:
+		if c, ok := constInt(x.Len); ok {
+			up(c)
+		} else {
+			up(b.minConst(x.Len, x.Block(), depth+1))
+		}
+	case *ssa.Slice:
+		lo := int64(0)
+		loConst := x.Low == nil
+		if x.Low != nil {
+			if c, ok := constInt(x.Low); ok {
+				lo, loConst = c, true
+			}
+		}
+		if x.High != nil {
+			if hc, ok := constInt(x.High); ok && loConst {
+				up(hc - lo) // the expression itself panics unless the operand is that long
+			}
+		} else if loConst {
+			if arr, ok := deref(x.X.Type()).Underlying().(*types.Array); ok {
+				up(arr.Len() - lo)
+			} else if k := b.lenAtLeast(x.X, x.Block(), depth+1); k > lo {
+				up(k - lo)
+			}
+		}
+	case *ssa.Phi:
+		lo := int64(-1)
+		for _, e := range x.Edges {
+			k := b.lenAtLeast(e, x.Block(), depth+1)
+			if lo < 0 || k < lo {
+				lo = k
+			}
+		}
+		if lo > 0 {
+			up(lo)
+		}
+	case *ssa.Parameter:
+		pf := x.Parent()
+		idx := -1
+		for i, p := range pf.Params {
+			if p == x {
+				idx = i
+			}
+		}
+		node := b.w.CHA().Nodes[pf]
+		lo, n := int64(-1), 0
+		if node != nil && idx >= 0 {
+			for _, e := range node.In {
+				if e.Site == nil || !b.scope[e.Caller.Func] {
+					continue
+				}
+				cc := e.Site.Common()
+				if cc.IsInvoke() || idx >= len(cc.Args) {
+					lo = 0
+					continue
+				}
+				n++
+				k := b.lenAtLeast(cc.Args[idx], e.Site.Block(), depth+1)
+				if lo < 0 || k < lo {
+					lo = k
+				}
+			}
+		}
+		if n > 0 && lo > 0 {
+			up(lo)
+		}
+	case *ssa.UnOp:
+		// a local cell written once
+		if x.Op == token.MUL {
+			if al, ok := x.X.(*ssa.Alloc); ok {
+				if sts := cellStores(al); len(sts) == 1 {
+					up(b.lenAtLeast(sts[0].Val, sts[0].Block(), depth+1))
+				}
+			}
+		}
+	}
+	return best
+}
+
 // minConst: the greatest constant K for which v >= K is established at block `at` (0: nothing known). Sources:
 // constants; a dominating comparison of (an alias of) v with a positive constant on the edge where v is not smaller;
 // a validator call on v whose accepted paths all establish a minimum; parameters (every in-scope call site);
@@ -1613,6 +1787,23 @@ func (b *boundsAn) minConst(v ssa.Value, at *ssa.BasicBlock, depth int) (res int
 		}
 	}
 	switch x := v.(type) {
+	case *ssa.BinOp:
+		kx, ky := b.minConst(x.X, at, depth+1), b.minConst(x.Y, at, depth+1)
+		switch x.Op {
+		case token.MUL:
+			if kx > 0 && ky > 0 && kx < 1<<31 && ky < 1<<31 && b.maxBits(x.X, 0)+b.maxBits(x.Y, 0) <= func() int {
+				if tb := typeBits(x.Type()); tb > 0 {
+					return tb
+				}
+				return 64
+			}() {
+				up(kx * ky)
+			}
+		case token.ADD:
+			if typeBits(x.Type()) == 64 && kx >= 0 && ky >= 0 {
+				up(kx + ky)
+			}
+		}
 	case *ssa.Convert:
 		if typeBits(x.Type()) >= typeBits(x.X.Type()) {
 			up(b.minConst(x.X, at, depth+1))
